@@ -2,7 +2,7 @@ SPECIFICATION Spec
 CONSTANTS
   Vers = {"sasl", "sasl2"}
   Mechs = {"PLAIN", "DIGEST-MD5", "X-UNKNOWN"}
-  Creds = {"right", "otherUser"}
+  Creds = {"right", "wrongPw", "otherUser"}
   BindRes = {"ra"}
   Kinds = {"message", "presence", "iq"}
   Froms = {"absent", "own", "ownBare", "victim", "other"}
